@@ -130,7 +130,39 @@ def miri_subspace(prop, procs=16):
             bad.append((i, rc, text))
     cov = {"miri_cases": cases, "miri_max_capacity": maxn, "miri_case_stride": stride, "miri_wall_s": round(time.time() - t0, 1)}
     if not bad:
-        return cov, None, None
+        # second pass: the same sub-space (three times sparser) interpreted for a 32-bit target, where usize, the
+        # layout of the buffer and every cfg(target_pointer_width) arm differ
+        t1 = time.time()
+        tdir32 = os.path.join(cc.TARGET, "miri32")
+        tgt = ["--target", "i686-unknown-linux-gnu"]
+        b = subprocess.run(["cargo", "+nightly", "miri", "setup"] + tgt, cwd=cc.HARNESS, env=env, stdout=subprocess.PIPE, stderr=subprocess.STDOUT, text=True)
+        first = subprocess.run(["cargo", "+nightly", "miri", "run", "--offline"] + tgt + ["--target-dir", tdir32, "--bin", "cbverif", "--", "miri", prop, "0", "100000", "0"],
+                               cwd=cc.HARNESS, env=env, stdout=subprocess.PIPE, stderr=subprocess.STDOUT, text=True) if b.returncode == 0 else b
+        if first.returncode != 0:
+            cov["miri_32bit_note"] = "the 32-bit Miri pass could not be built: " + first.stdout[-300:]
+            return cov, None, None
+        ps32 = []
+        for i in range(procs):
+            log = open(os.path.join(work, f"log32_{i}.txt"), "w")
+            p = subprocess.Popen(["cargo", "+nightly", "miri", "run", "--offline"] + tgt + ["--target-dir", tdir32, "--bin", "cbverif", "--",
+                                  "miri", prop, str(i), str(procs), str(maxn), str(stride * 3)], cwd=cc.HARNESS, env=env, stdout=log, stderr=subprocess.STDOUT)
+            ps32.append((p, log))
+        cases32 = 0
+        for i, (p, log) in enumerate(ps32):
+            rc = p.wait()
+            log.close()
+            text = open(os.path.join(work, f"log32_{i}.txt"), errors="replace").read()
+            for line in text.splitlines():
+                if line.startswith("MIRI-OK cases="):
+                    cases32 += int(line.split("=")[1])
+            if rc != 0:
+                bad.append((i, rc, text))
+        cov["miri_32bit_target_cases"] = cases32
+        cov["miri_32bit_wall_s"] = round(time.time() - t1, 1)
+        cov["miri_cases"] = cases + cases32
+        if not bad:
+            return cov, None, None
+        tdir = tdir32
     i, rc, text = bad[0]
     fail = [l for l in text.splitlines() if l.startswith("MIRI-FAIL ")]
     if fail:
@@ -143,8 +175,9 @@ def miri_subspace(prop, procs=16):
         # find the case: re-run the last unit with tracing
         last_unit = units[-1] if units else "UNIT ?"
         env2 = dict(env, CBVERIF_TRACE="1")
-        r = subprocess.run(["cargo", "+nightly", "miri", "run", "--offline", "--target-dir", tdir, "--bin", "cbverif", "--",
-                            "miri", prop, str(i), str(procs), str(maxn), str(stride)], cwd=cc.HARNESS, env=env2, stdout=subprocess.PIPE, stderr=subprocess.STDOUT, text=True)
+        is32 = tdir.endswith("miri32")
+        r = subprocess.run(["cargo", "+nightly", "miri", "run", "--offline"] + (["--target", "i686-unknown-linux-gnu"] if is32 else []) + ["--target-dir", tdir, "--bin", "cbverif", "--",
+                            "miri", prop, str(i), str(procs), str(maxn), str(stride * 3 if is32 else stride)], cwd=cc.HARNESS, env=env2, stdout=subprocess.PIPE, stderr=subprocess.STDOUT, text=True)
         cases_l = [l for l in r.stdout.splitlines() if l.startswith("CASE ")]
         case = json.loads(cases_l[-1][5:]) if cases_l else None
         rep = os.path.join(cc.REPLAYS, f"{prop}-miri-report.txt")
